@@ -62,3 +62,7 @@ impl EncoderValue for PathChallenge<'_> {
         buffer.encode(&self.data.as_ref());
     }
 }
+
+#[cfg(all(aws_s2n_quic_verif, test))]
+#[path = "/verif/harness/core/frame_path_challenge.rs"]
+mod verif;
